@@ -119,6 +119,19 @@ func (c *ingestor) ingestBlock(batch db.KeyValueWriter, blockNumber uint64) (int
 		return 0, err
 	}
 
+	if len(blockTransactions.Indexes.Transactions) == 0 && len(blockTransactions.Indexes.Receipts) == 0 {
+		// Nothing left in the old layout. If the block already has its combined entry it was
+		// migrated by an interrupted earlier run: keep that entry, do not overwrite it
+		// with the empty one just built.
+		has, err := core.BlockTransactionsBucket.Has(c.database, blockNumber)
+		if err != nil {
+			return 0, err
+		}
+		if has {
+			return txCount, nil
+		}
+	}
+
 	err = c.validateCount(
 		blockNumber,
 		txCount,
